@@ -242,6 +242,11 @@ def c06(r):
 
 def c07(r):
     submitter(r, ["C07."])
+    # the full-node half of C07 ("observed on the DA layer", "eventually reports h, including after a restart"):
+    # the real RetrieveLoop / SyncLoop / DAIncluderLoop of a full node under DA fault sequences, restarts and crashes
+    for args, name in ((["-arg", "retrieve"], "syncer-retrieve"), ([], "syncer-random"), (["-arg", "crash"], "syncer-crashenum")):
+        t = r.drive("syncer", args, name=name)
+        r.tlc_validate("SyncTrace", t, ["C07."])
     # unbounded in chain length: the watermark / DA-included discipline as an inductive invariant
     r.apalache_inductive("WatermarkInd", implied=("WmSound", "InclSound"))
 
